@@ -472,7 +472,7 @@ impl DOP853 {
                 }
 
                 // Prepare dense output
-                event = xout.map_or(false, |xo| xo <= xph);
+                event = xout.map_or(false, |xo| (xph - xo) * posneg >= 0.0);
                 if self.dense_output || event {
                     for i in 0..n {
                         cont[i] = y[i];
